@@ -628,14 +628,14 @@ def nocr_docs(seed, tier, quick, thorough):
 
 class C14(Check):
     rule = DOC_RULE + "; documents without CR, each also with LF->CRLF, LF->CR and an appended final newline; every block kind left open at end of input"
-    obligations = [("main", "PropsFull", "C14_padding"), ("main", "PropsFull", "C14_final_newline"), ("main", "PropsFull", "C14_crlf_nobracket"), ("main", "PropsFull", "C14_crlf_limit"), ("stream", "C14b", "skip_blank_lines"), ("stream", "C14b", "nb_shift"), ("main", "Rec15", "parseSetext_correct"), ("recog", "TB", "parseThematicBreak_correct"),
+    obligations = [("main", "PropsFull", "C14_padding"), ("main", "PropsFull", "C14_cr_parse"), ("main", "PropsFull", "C14_cr_render"), ("main", "PropsFull", "C14_final_newline"), ("main", "PropsFull", "C14_crlf_nobracket"), ("main", "PropsFull", "C14_crlf_limit"), ("stream", "C14b", "skip_blank_lines"), ("stream", "C14b", "nb_shift"), ("main", "Rec15", "parseSetext_correct"), ("recog", "TB", "parseThematicBreak_correct"),
                    ("recog", "ATXProof", "parseATXHeading_correct"),
                    ("main", "EolInv", "recognizers_eol_invariant"), ("main", "EolInv", "recognizers_eolRun_invariant"),
                    ("main", "BlankPrefix", "parseBlocks_blank_prefix_partial"), ("main", "BlankPrefix", "skipLoop_blank_prefix_partial"),
                    ("main", "BlankPrefix", "parseBlocks_blank_prefix_of_total"), ("main", "Uncond", "parseBlocks_blank_prefix"),
-                   ("main", "EolCR", "parseBlocks_cr"), ("main", "EolFinalGenMain", "parseBlocks_final_newline"), ("main", "EolCRLFGen", "parseBlocks_crlf_limit"), ("main", "EolCRLFGen", "parseBlocks_crlf_statement_false"), ("main", "EolCRLFSim", "parseBlocks_crlf_nobracket"), ("main", "EolFinalSimMain", "parseBlocks_final_newline_nobracket"), ("main", "EolCRLFSimLine", "CQ_processLine"), ("main", "EolRefuted", "final_newline_unrestricted_refuted"), ("main", "EolRefuted", "crlf_unrestricted_refuted")]
+                   ("main", "EolCRFull", "parseFull_cr"), ("main", "EolCRRender", "renderDoc_cr"), ("main", "EolCRRender", "renderDoc_cr_norm"), ("main", "EolCRRender", "renderDoc_cr_safe"), ("main", "EolCRRenderTree", "destOK"), ("main", "EolCR", "parseBlocks_cr"), ("main", "EolFinalGenMain", "parseBlocks_final_newline"), ("main", "EolCRLFGen", "parseBlocks_crlf_limit"), ("main", "EolCRLFGen", "parseBlocks_crlf_statement_false"), ("main", "EolCRLFSim", "parseBlocks_crlf_nobracket"), ("main", "EolFinalSimMain", "parseBlocks_final_newline_nobracket"), ("main", "EolCRLFSimLine", "CQ_processLine"), ("main", "EolRefuted", "final_newline_unrestricted_refuted"), ("main", "EolRefuted", "crlf_unrestricted_refuted")]
     slow_files = ["EolFinal", "EolCRLF", "EolStruct"]
-    assumptions = ["partial: the padding clause is proved on the concrete block machine (parseBlocks_blank_prefix_partial: parseBlocks (B ++ s) = shifted parseBlocks s for blank-line prefixes B, under the side condition that a CR ending B does not fuse with an LF starting s ; Uncond.parseBlocks_blank_prefix is the statement without any fuel condition, by the totality theorem of the block layer) and for any block machine (nb_shift); all five recognizers are proved independent of the line-ending style and of its presence (recognizers_eol_invariant, any run of CR/LF bytes); the CR clause is proved at the block layer for every input without CR (EolCR.parseBlocks_cr: replacing LF by CR changes nothing but the Source bytes: trees, offsets, lines and normalised labels are literally equal); the final-newline clause is proved at the block layer for EVERY input (EolFinalGenMain.parseBlocks_final_newline: appending LF to a non-empty input that ends neither in a line ending nor in '>' changes only the last root, exactly by the relation finRoots; the '>' exclusion is the contains off-by-one, see DESIGN 12.11c); the CRLF clause is proved for every input without CR whose length keeps every label scan below the 999-step limit in both runs (EolCRLFGen.parseBlocks_crlf_limit: 2 * len (crlf (pad s)) + 9 < 999) and for every input of any length that contains no '[' (parseBlocks_crlf_nobracket); the statement with the bound len (crlf s) < 999 is false (parseBlocks_crlf_statement_false: the limit counts reader steps, and a partly consumed tab costs up to four steps for one byte: a 916-byte witness, same family as finding D24); earlier, weaker forms: (EolCRLFSim.parseBlocks_crlf_nobracket: parseBlocks (crlf s) is the image of parseBlocks s under the position map p + number of LF before p, Sources mapped; EolFinalSimMain.parseBlocks_final_newline_nobracket: appending LF to an input that does not end in a line ending nor in '>' changes only the last root, exactly by the relation finRoots: per-line simulations for every block kind, EOF step, stream layer); '[' is excluded because the link-reference-definition reader would need a two-run commutation with fuel independence and, for CRLF, the 999-character limit (finding D24): with '[' the clauses are decided by the correspondence on the variants plus the oracle; for all inputs the exact tree relations are executable checkers (EolFinalDefs, EolCRLFDefs), each refuted without a restriction (EolRefuted: ' <?>' changes the tree but not the safe rendering; a 996-byte label with three line endings is finding D24) and, restricted, proved only for all inputs of length <= 5 over four alphabets and for 65 640 documents of 1-3 lines (coq/slow, compiled in the thorough tier): the unbounded simulation for those two clauses is still open; correspondence on the variants plus the oracle decide them"]
+    assumptions = ["partial: the padding clause is proved on the concrete block machine (parseBlocks_blank_prefix_partial: parseBlocks (B ++ s) = shifted parseBlocks s for blank-line prefixes B, under the side condition that a CR ending B does not fuse with an LF starting s ; Uncond.parseBlocks_blank_prefix is the statement without any fuel condition, by the totality theorem of the block layer) and for any block machine (nb_shift); all five recognizers are proved independent of the line-ending style and of its presence (recognizers_eol_invariant, any run of CR/LF bytes); the CR clause is proved through the WHOLE pipeline for every input without CR: parseFull (cr s) = parseFull s with only the Source bytes mapped (EolCRFull.parseFull_cr: trees after the inline pass, spans, kinds and normalised labels literally equal) and the rendered HTML of cr s equals that of s byte for byte except that some LF are CR (EolCRRender.renderDoc_cr, every configuration; renderDoc_cr_norm / renderDoc_cr_safe: equal after mapping CR to LF) — this is the property's first clause for CR as stated; it needed the fact, proved for every input (destOK), that link destinations and autolinks contain no line ending, because normalizeURI would encode LF and CR differently; at the block layer (EolCR.parseBlocks_cr: replacing LF by CR changes nothing but the Source bytes: trees, offsets, lines and normalised labels are literally equal); the final-newline clause is proved at the block layer for EVERY input (EolFinalGenMain.parseBlocks_final_newline: appending LF to a non-empty input that ends neither in a line ending nor in '>' changes only the last root, exactly by the relation finRoots; the '>' exclusion is the contains off-by-one, see DESIGN 12.11c); the CRLF clause is proved for every input without CR whose length keeps every label scan below the 999-step limit in both runs (EolCRLFGen.parseBlocks_crlf_limit: 2 * len (crlf (pad s)) + 9 < 999) and for every input of any length that contains no '[' (parseBlocks_crlf_nobracket); the statement with the bound len (crlf s) < 999 is false (parseBlocks_crlf_statement_false: the limit counts reader steps, and a partly consumed tab costs up to four steps for one byte: a 916-byte witness, same family as finding D24); earlier, weaker forms: (EolCRLFSim.parseBlocks_crlf_nobracket: parseBlocks (crlf s) is the image of parseBlocks s under the position map p + number of LF before p, Sources mapped; EolFinalSimMain.parseBlocks_final_newline_nobracket: appending LF to an input that does not end in a line ending nor in '>' changes only the last root, exactly by the relation finRoots: per-line simulations for every block kind, EOF step, stream layer); '[' is excluded because the link-reference-definition reader would need a two-run commutation with fuel independence and, for CRLF, the 999-character limit (finding D24): with '[' the clauses are decided by the correspondence on the variants plus the oracle; for all inputs the exact tree relations are executable checkers (EolFinalDefs, EolCRLFDefs), each refuted without a restriction (EolRefuted: ' <?>' changes the tree but not the safe rendering; a 996-byte label with three line endings is finding D24) and, restricted, proved only for all inputs of length <= 5 over four alphabets and for 65 640 documents of 1-3 lines (coq/slow, compiled in the thorough tier): the unbounded simulation for those two clauses is still open; correspondence on the variants plus the oracle decide them"]
 
     def jobs(self, seed, tier):
         base = nocr_docs(seed, tier, 1200, 50000)
@@ -704,9 +704,9 @@ def nest_docs(seed, tier):
 
 class C09(Check):
     rule = "tab-free, CR-free documents (spec examples + token soup with multi-line links, titles, raw tags, code spans, setext headings, definitions); quote prefix '> ' and list markers -, +, 7., 12) with 1..4 spaces"
-    obligations = [("main", "QuoteSimMain", "parseBlocks_quote_main_partial"), ("main", "QuoteSimMain", "parseBlocks_quote_single_root_partial"), ("main", "QuoteSimQLine", "processLine_quoted"), ("main", "QuoteSimTest", "parseBlocks_quote_naive_refuted"), ("main", "SliceNest", "C09_quote"), ("main", "SliceNest", "C09_bullet_item"), ("main", "SliceNest", "C09_ordered_item"), ("main", "SliceMulti", "C09_quote_lines"),
+    obligations = [("main", "PropsFull", "C09_quote_blocks"), ("main", "QS2Spec2", "parseBlocks_quote"), ("main", "QS2Main", "parseBlocks_quote_T58"), ("main", "QRdrOcp", "q_onCloseParagraph"), ("main", "QuoteSimMain", "parseBlocks_quote_main_partial"), ("main", "QuoteSimMain", "parseBlocks_quote_single_root_partial"), ("main", "QuoteSimQLine", "processLine_quoted"), ("main", "QuoteSimTest", "parseBlocks_quote_naive_refuted"), ("main", "SliceNest", "C09_quote"), ("main", "SliceNest", "C09_bullet_item"), ("main", "SliceNest", "C09_ordered_item"), ("main", "SliceMulti", "C09_quote_lines"),
                    ("main", "L2CCfull", "parseFull_contain"), ("main", "NoPanicAll", "parseBlocks_no_panic")]
-    assumptions = ["block-quote clause at the block layer, for every non-empty document D without tab, CR, NUL and without '[': parseBlocks of D with '> ' before every line is exactly one BlockQuote root over the whole input whose children are the blocks of all roots of D under the explicit position map (every span, inline entry, kind, indent, number, delimiter, loose flag and nested flag equal; QuoteSimMain.parseBlocks_quote_main_partial, by a two-stage per-line simulation: nest one level deeper, relocate); two corrections to the naive statement, each with its witness as a theorem: the internal lastLineBlank flag of the quote's top-level children differs (blank lines between roots are skipped in the plain run, processed inside the quote) and a Text node spanning lines inside a definition is split at line ends; '[' is excluded because the link-reference-definition reader would have to be relocated under per-span shifts with fuel adequacy; the list-item clause is not treated at this generality", "end to end (rendering included) on a slice: for text lines of any length (letters, digits, single spaces, escaped punctuation), '> ' before one line, or before each of several lines forming one paragraph, yields one block quote whose content is exactly the paragraph shifted by the prefix-removal map, and the rendering is <blockquote> around the rendering of D (SliceNest.C09_quote, SliceMulti.C09_quote_lines); one line behind a bullet or one-digit ordered marker yields the one-item list with [marker; paragraph shifted] (C09_bullet_item, C09_ordered_item); for general D the property is decided by the nesting oracle on the implementation (safe-mode HTML of D vs. of the contents of quote(D) / item(D)) and by the correspondence of model and implementation on D, quote(D) and item(D)"]
+    assumptions = ["block-quote clause at the block layer, full: for EVERY non-empty document D without tab, CR and NUL (QS2Spec2.parseBlocks_quote = QuoteSimDefs.parseBlocks_quote_statement): parseBlocks of D with '> ' before every line is exactly one BlockQuote root over the whole input whose children are the blocks of all roots of D under the explicit position map, lastLineBlank flags exact, Text nodes of definitions split at line ends as the corrected statement says; link reference definitions included (a bisimulation of the multi-line reader under per-entry shifts, lifted through every scanner, collectTextNodes and the definition loop); what the property adds beyond the block layer (the inline pass inside the quote and the rendering) is proved on slices and otherwise decided by the nesting oracle", "earlier, weaker form: for every non-empty document D without tab, CR, NUL and without '[': parseBlocks of D with '> ' before every line is exactly one BlockQuote root over the whole input whose children are the blocks of all roots of D under the explicit position map (every span, inline entry, kind, indent, number, delimiter, loose flag and nested flag equal; QuoteSimMain.parseBlocks_quote_main_partial, by a two-stage per-line simulation: nest one level deeper, relocate); two corrections to the naive statement, each with its witness as a theorem: the internal lastLineBlank flag of the quote's top-level children differs (blank lines between roots are skipped in the plain run, processed inside the quote) and a Text node spanning lines inside a definition is split at line ends; '[' is excluded because the link-reference-definition reader would have to be relocated under per-span shifts with fuel adequacy; the list-item clause is not treated at this generality", "end to end (rendering included) on a slice: for text lines of any length (letters, digits, single spaces, escaped punctuation), '> ' before one line, or before each of several lines forming one paragraph, yields one block quote whose content is exactly the paragraph shifted by the prefix-removal map, and the rendering is <blockquote> around the rendering of D (SliceNest.C09_quote, SliceMulti.C09_quote_lines); one line behind a bullet or one-digit ordered marker yields the one-item list with [marker; paragraph shifted] (C09_bullet_item, C09_ordered_item); for general D the property is decided by the nesting oracle on the implementation (safe-mode HTML of D vs. of the contents of quote(D) / item(D)) and by the correspondence of model and implementation on D, quote(D) and item(D)"]
 
     def jobs(self, seed, tier):
         base = nest_docs(seed, tier)
